@@ -346,7 +346,9 @@ func (vm *VM) callNative(fn *NativeFunction, numVariadic int8, shift StackShift,
 			if i < lastNonVariadic {
 				if i < 2 && typ.In(i) == envType {
 					// Set the path of the file that contains the call.
-					if vm.main {
+					// vm.fn is nil if a deferred call is executed while the
+					// goroutine is panicking.
+					if vm.main && vm.fn != nil {
 						env := vm.env
 						env.mu.Lock()
 						env.callPath = vm.fn.InstructionInfo[vm.pc-1].Path
@@ -633,6 +635,14 @@ func (vm *VM) nextCall() bool {
 				return true
 			}
 			vm.fp = call.fp
+			if i < len(vm.calls) && vm.calls[i].status == panicked {
+				// A deferred native function is called while panicking.
+				// Keep the panicked call on top of the call stack, so that
+				// it is visited again after the native function returns
+				// and its next deferred call, if any, is executed.
+				vm.calls = vm.calls[:i+1]
+				i++
+			}
 			vm.callNative(call.cl.Native(), call.numVariadic, StackShift{}, false)
 		}
 	}
